@@ -22,7 +22,7 @@ from vf.common import CACHE, TREE_HASH, canon, jdump
 from vf.gen import config as GC
 from vf.gen import loads as GL
 
-SCEN_VERSION = "3"
+SCEN_VERSION = "5"
 
 
 def scen_key(cfg, opts=None):
@@ -258,12 +258,17 @@ def run_scenario(cfg, opts=None):
                 "hp_eft_hash": hashlib.sha256(np.asarray(ghe.hp_eft, dtype=float).tobytes()).hexdigest()[:16],
             }
             # summary as the user sees it
-            with warnings.catch_warnings():
-                warnings.simplefilter("ignore")
-                with contextlib.redirect_stdout(sink):
-                    mgr.prepare_results("verif", "n", "a", "i")
-            od = mgr.results.output_dict
-            rec["summary"] = {
+            try:
+                with warnings.catch_warnings():
+                    warnings.simplefilter("ignore")
+                    with contextlib.redirect_stdout(sink):
+                        mgr.prepare_results("verif", "n", "a", "i")
+            except Exception as e:  # noqa: BLE001 - the tool failed to report a design it has just produced
+                tb = traceback.extract_tb(e.__traceback__)
+                rec["summary_error"] = {"type": type(e).__name__, "msg": str(e)[:200], "where": [f"{f.name}:{f.lineno}" for f in tb if "ghedesigner" in f.filename][-3:]}
+            od = mgr.results.output_dict if mgr.results is not None else None
+            if od is not None:
+              rec["summary"] = {
                 "number_of_boreholes": od["ghe_system"]["number_of_boreholes"],
                 "total_drilling": od["ghe_system"]["total_drilling"]["value"],
                 "active_borehole_length": od["ghe_system"]["active_borehole_length"]["value"],
@@ -272,8 +277,8 @@ def run_scenario(cfg, opts=None):
                 "borefield_rows": len(mgr.results.borehole_location_data_rows) - 1,
                 "search_log_rows": [[str(r[0]), float(r[1]), float(r[2]), float(r[3])] for r in od["design_selection_search_log"]["data"]],
                 "text_nbh_line": next((ln for ln in mgr.results.text_summary.split("\n") if "NBH:" in ln), ""),
-            }
-            rec["tables"] = table_checks(mgr, loads)
+              }
+              rec["tables"] = table_checks(mgr, loads)
             # in-place re-simulation on a deep copy (the monitor must not repair what it observes)
             from ghedesigner.enums import TimestepType
 
@@ -293,6 +298,19 @@ def run_scenario(cfg, opts=None):
                 resim["oracle_excess"] = own_excess(exp, sp.max_EFT_allowable, sp.min_EFT_allowable)
             else:
                 resim["oracle_err"] = None
+            # when the returned height is interior but the excess there is not ~0, look 1 mm to either side: a sign change
+            # there means the root solver converged onto a jump of the sizing objective (classifier input for C01/C05)
+            if sp.min_height + 1e-9 < H < sp.max_height - 1e-9 and abs(resim["excess"]) > 5e-4:
+                side = {}
+                for name, dh in (("minus", -1e-3), ("plus", 1e-3)):
+                    g3 = copy.deepcopy(ghe)
+                    g3.bhe.b.H = H + dh
+                    with warnings.catch_warnings():
+                        warnings.simplefilter("ignore")
+                        g3.simulate(method=TimestepType.HYBRID)
+                    side[name] = own_excess(g3.hp_eft, sp.max_EFT_allowable, sp.min_EFT_allowable)
+                resim["excess_1mm_below"] = side["minus"]
+                resim["excess_1mm_above"] = side["plus"]
             rec["resim"] = resim
             rec["loads_peak_kw"] = float(max(abs(x) for x in loads) / 1000.0)
     except Exception as e:  # noqa: BLE001 - harness trouble: recorded, judged inconclusive
